@@ -11,7 +11,8 @@
 //
 //	new kind=<k> [ivl=<ms>] [writer=0|1] [size=<n>] [max=<n>] [media=<n>] [fec=<n>] [rate=<bit/s>] [mode=twcc|ccfb] [min=<n>]
 //	bind ssrc=<s> [seq0=<first sequence number>]
-//	phase workload=inorder|loss|dup|reorder ssrc=<s> n=<slots> [p=<period>] [fb=<feedback every k slots, 0 = none>]
+//	phase workload=inorder|loss|dup|reorder|idle ssrc=<s> [rr=<k: round-robin over streams s..s+k-1>] n=<slots> [p=<period>] [fb=<feedback every k slots, 0 = none>]
+//	jump ssrc=<s> d=<the stream's sequence number jumps forward by d>
 //	unbind ssrc=<s>
 //	close
 //
@@ -453,12 +454,33 @@ func (k *c12Stats) feedback() {
 		ssrcs = append(ssrcs, int(s))
 	}
 	sort.Ints(ssrcs)
-	for _, s := range ssrcs {
+	for _, si := range ssrcs {
+		s := uint32(si)
 		k.n++
-		_, _ = k.rtcpWrite.Write([]rtcp.Packet{
-			&rtcp.SenderReport{SSRC: uint32(s), NTPTime: k.n},
-			&rtcp.ExtendedReport{SenderSSRC: uint32(s), Reports: []rtcp.ReportBlock{&rtcp.ReceiverReferenceTimeReportBlock{NTPTimestamp: k.n}}},
-		}, interceptor.Attributes{})
+		n := k.n
+		// outgoing compound packet: one or two sender reports and an XR with 1..4 RRTR blocks
+		out := []rtcp.Packet{&rtcp.SenderReport{SSRC: s, NTPTime: n << 20}}
+		if n%2 == 1 {
+			out = append(out, &rtcp.SenderReport{SSRC: s, NTPTime: n<<20 + 1})
+		}
+		xr := &rtcp.ExtendedReport{SenderSSRC: s}
+		for j := uint64(0); j < 1+n%4; j++ {
+			xr.Reports = append(xr.Reports, &rtcp.ReceiverReferenceTimeReportBlock{NTPTimestamp: n<<20 + 16 + j})
+		}
+		out = append(out, xr)
+		_, _ = k.rtcpWrite.Write(out, interceptor.Attributes{})
+		// incoming compound packet: a receiver report with 1..3 report blocks for the stream
+		rr := &rtcp.ReceiverReport{SSRC: 9}
+		for j := uint64(0); j < 1+n%3; j++ {
+			rr.Reports = append(rr.Reports, rtcp.ReceptionReport{SSRC: s, FractionLost: uint8(n + j), TotalLost: uint32(n % 1000),
+				LastSequenceNumber: uint32(n + j), Jitter: uint32(j)})
+		}
+		b, err := rtcp.Marshal([]rtcp.Packet{rr})
+		if err != nil {
+			panic(err)
+		}
+		k.rtcpFeed.buf = b
+		_, _, _ = k.rtcpRead.Read(k.scratch, interceptor.Attributes{})
 	}
 }
 
@@ -558,28 +580,35 @@ func runSizes(t *testing.T, ops []string, o *Out) {
 					o.P("bad-op")
 					continue
 				}
-				s := uint32(atoi(m["ssrc"]))
-				n, p, fb := atoi(m["n"]), 10, 0
-				if _, ok := m["p"]; ok {
-					if !c12Valid(m, "p") {
-						o.P("bad-op")
-						continue
+				s0 := uint32(atoi(m["ssrc"]))
+				n, p, fb, rr := atoi(m["n"]), 10, 0, 1
+				okp := true
+				for key, dst := range map[string]*int{"p": &p, "fb": &fb, "rr": &rr} {
+					if _, ok := m[key]; ok {
+						if !c12Valid(m, key) {
+							okp = false
+						} else {
+							*dst = atoi(m[key])
+						}
 					}
-					p = atoi(m["p"])
-				}
-				if _, ok := m["fb"]; ok {
-					if !c12Valid(m, "fb") {
-						o.P("bad-op")
-						continue
-					}
-					fb = atoi(m["fb"])
 				}
 				w := m["workload"]
-				if !bound[s] || p < 2 || (w != "inorder" && w != "loss" && w != "dup" && w != "reorder") {
+				if !okp || p < 2 || rr < 1 || rr > 1000 ||
+					(w != "inorder" && w != "loss" && w != "dup" && w != "reorder" && w != "idle") {
+					o.P("bad-op")
+					continue
+				}
+				for j := 0; j < rr; j++ {
+					if !bound[s0+uint32(j)] {
+						okp = false
+					}
+				}
+				if !okp {
 					o.P("bad-op")
 					continue
 				}
 				for i := 0; i < n; i++ {
+					s := s0 + uint32(g%rr) // round-robin over the streams s0 .. s0+rr-1
 					seq := next[s]
 					r := g % p
 					switch w {
@@ -601,6 +630,7 @@ func runSizes(t *testing.T, ops []string, o *Out) {
 						default:
 							k.packet(s, seq, false)
 						}
+					case "idle": // a pause: nothing passes, the sequence numbers go on
 					}
 					next[s] = seq + 1
 					g++
@@ -611,6 +641,13 @@ func runSizes(t *testing.T, ops []string, o *Out) {
 						synctest.Wait()
 					}
 				}
+			case "jump": // the stream's sequence number jumps forward by d
+				if k == nil || closed || !c12Valid(m, "ssrc", "d") || !bound[uint32(atoi(m["ssrc"]))] || atoi(m["d"]) > 65535 {
+					o.P("bad-op")
+					continue
+				}
+				s := uint32(atoi(m["ssrc"]))
+				next[s] += uint16(atoi(m["d"]))
 			case "unbind":
 				if k == nil || closed || !c12Valid(m, "ssrc") || !bound[uint32(atoi(m["ssrc"]))] {
 					o.P("bad-op")
@@ -660,7 +697,7 @@ func genSizes(r *Rng, tier string, idx int) Case {
 	// are for the kinds whose size is bounded.
 	cost := 1 // 0 cheap, 1 medium, 2 growing
 	switch kind {
-	case "rr", "sr", "nackresp", "ccadapter", "twcc", "stats", "flexfec":
+	case "rr", "sr", "nackresp", "ccadapter", "twcc", "flexfec":
 		cost = 0
 	case "jitter":
 		cost = 2
@@ -670,7 +707,10 @@ func genSizes(r *Rng, tier string, idx int) Case {
 		cfg += fmt.Sprintf(" size=%d ivl=%d max=%d writer=%d", r.Pick(64, 512, 8192), ivl, r.Pick(0, 0, 2, 5), r.Pick(0, 1, 1, 1))
 	case "nackresp":
 		cfg += fmt.Sprintf(" size=%d", r.Pick(64, 1024, 8192))
-	case "rr", "sr", "rfc8888":
+	case "rr", "sr":
+		cfg += fmt.Sprintf(" ivl=%d", ivl)
+	case "rfc8888": // also report intervals that hold far more packets than one report can describe
+		ivl = r.Pick(20, 100, 200, 1000, 2000, 3000)
 		cfg += fmt.Sprintf(" ivl=%d", ivl)
 	case "twcc":
 		cfg += fmt.Sprintf(" ivl=%d", r.Pick(20, 50, 100, 200, 3_600_000))
@@ -692,7 +732,7 @@ func genSizes(r *Rng, tier string, idx int) Case {
 	}
 	var n int
 	if tier == "thorough" {
-		n = [3]int{r.Range(100_000, 300_000), r.Range(20_000, 50_000), r.Range(1500, 3000)}[cost]
+		n = [3]int{r.Range(100_000, 300_000), r.Range(10_000, 25_000), r.Range(1500, 3000)}[cost]
 		if cost == 0 && idx%5 == 0 {
 			n = 1_000_000
 		}
@@ -700,7 +740,19 @@ func genSizes(r *Rng, tier string, idx int) Case {
 		n = [3]int{r.Range(2000, 5000), r.Range(2000, 5000), r.Range(300, 800)}[cost]
 	}
 	ops = append(ops, cfg)
-	streams := r.Range(1, 2)
+	// streams: mostly one or two, driven phase by phase; sometimes many, driven round-robin
+	// (rfc8888: so many that the per-stream share of the report is zero blocks)
+	streams, many := r.Range(1, 2), false
+	if r.Chance(1, 4) {
+		many = true
+		streams = r.Range(5, 12)
+		if kind == "rfc8888" && r.Chance(2, 3) {
+			streams = r.Range(90, 130)
+		}
+		if kind == "rtpfb" {
+			streams = r.Range(3, 8)
+		}
+	}
 	for s := 1; s <= streams; s++ {
 		ops = append(ops, fmt.Sprintf("bind ssrc=%d seq0=%d", s, r.Pick(0, 1000, 65000, 65530)))
 	}
@@ -708,10 +760,22 @@ func genSizes(r *Rng, tier string, idx int) Case {
 	r0 := r.Intn(4)
 	phases := r.Range(4, 8)
 	p := r.Pick(2, 5, 10, 10, 50)
+	// pauses and sequence jumps between phases (not for rtpfb: its simulated remote peer must see
+	// every stream continuously, see the hypotheses in props/C12.json)
+	gaps := kind != "rtpfb" && r.Chance(1, 2)
 	for i := 0; i < phases; i++ {
 		w := wl[(r0+i/2)%4] // every workload twice in a row: growth between successive equal phases
-		s := 1 + (i % streams)
-		ops = append(ops, fmt.Sprintf("phase workload=%s ssrc=%d n=%d p=%d fb=%d", w, s, n, p, fb))
+		if many {
+			ops = append(ops, fmt.Sprintf("phase workload=%s ssrc=1 rr=%d n=%d p=%d fb=%d", w, streams, n, p, fb))
+		} else {
+			ops = append(ops, fmt.Sprintf("phase workload=%s ssrc=%d n=%d p=%d fb=%d", w, 1+(i%streams), n, p, fb))
+		}
+		if gaps && r.Chance(1, 3) {
+			ops = append(ops, fmt.Sprintf("jump ssrc=%d d=%d", r.Range(1, streams), r.Pick(100, 700, 3000, 20000, 40000)))
+		}
+		if gaps && r.Chance(1, 4) {
+			ops = append(ops, fmt.Sprintf("phase workload=idle ssrc=1 n=%d fb=%d", r.Pick(300, 1500, 3000), fb))
+		}
 	}
 	for s := 1; s <= streams; s++ {
 		ops = append(ops, fmt.Sprintf("unbind ssrc=%d", s))
